@@ -119,7 +119,17 @@ def strategy_(draw, tier):
     if plain and draw(st.integers(0, 5)) == 0:
         spec['conflict'] = {'node': list(draw(st.sampled_from(plain))),
                             'what': draw(st.sampled_from(
-                                ['_value', '_units', '_serializer']))}
+                                ['_value', '_units', '_units', '_serializer'])),
+                            # different units, of different or of the same
+                            # dimension, in either order
+                            'units': list(draw(st.permutations(draw(
+                                st.sampled_from([
+                                    ['g', 's'], ['g', 'mg'], ['fg', 'g'],
+                                    ['mM', 'mol/L'], ['s', 'hour'],
+                                    ['m', 'mm']]))))),
+                            'values': draw(st.sampled_from(
+                                [[5, 6], [0, 1], [1, 1.5],
+                                 ['a', 'b'], [[1], [1, 2]]]))}
     # processes' own initial_state(): values for some of their non-glob views
     for p in spec['procs']:
         init = {}
@@ -171,11 +181,13 @@ def build(spec, ctx):
         a = {'_default': 1}
         b = {'_default': 1}
         if what == '_value':
-            a['_value'], b['_value'] = 5, 6
+            a['_value'], b['_value'] = spec['conflict'].get('values', [5, 6])
         elif what == '_units':
-            a['_default'] = 1 * units.g
-            b['_default'] = 1 * units.g
-            a['_units'], b['_units'] = units.g, units.s
+            ua, ub = [units(u).units for u in
+                      spec['conflict'].get('units', ['g', 's'])]
+            a['_default'] = 1 * ua
+            b['_default'] = 1 * ua
+            a['_units'], b['_units'] = ua, ub
         else:
             a['_serializer'], b['_serializer'] = 'vv-tag', 'vv-tag2'
         for name, decl in (('CA', a), ('CB', b)):
